@@ -195,7 +195,7 @@ PROPS = {
     "C02": dict(suites=PARSE_ALL, drivers=["corpus", "lengths", "repo-tests", "vocab", "escapes"]),
     "C03": dict(suites=["FORMAT-1", "FORMAT-2", "PARSE-QUAL", "PARSE-QUALS2", "BUILDER-G", "BUILDER-SEQ"], drivers=["scalars", "builder-ops", "vocab"]),
     "C04": dict(suites=PARSE_ALL + BUILD_ALL + ["SHAPES", "SYSTEM-G", "SYSTEM-T", "QUAL"], drivers=["garbage", "builder-ops", "repo-tests"]),
-    "C05": dict(suites=PARSE_ALL + ["CHECKSUM"], drivers=["corpus", "garbage", "lengths", "escapes"]),
+    "C05": dict(suites=PARSE_ALL + ["CHECKSUM"], drivers=["corpus", "garbage", "lengths", "escapes", "scalars"]),
     "C06": dict(suites=PARSE_ALL + ["QUAL", "QUAL-SIM", "CHECKSUM", "BUILDER-G", "BUILDER-T", "BUILDER-SIM-G", "FORMAT-1", "TYPES-LOOKUP", "TYPES-COMB", "TYPES-NAMES", "TYPES-STR", "SHAPES", "SYSTEM-T"], drivers=["garbage", "corpus", "scalars", "lengths", "qual-ops", "checksum-ops", "builder-ops", "type-strings", "combined", "big", "vocab", "escapes"]),
     "C07": dict(suites=["PARSE-NS", "PARSE-SUB", "PARSE-PATH", "PARSE-SEP", "SPELL", "FAULT"], drivers=["garbage", "corpus", "lengths", "escapes"]),
     "C08": dict(suites=["TYPES-NAMES", "TYPES-LOOKUP", "PARSE-TYPED", "BUILDER-T", "TYPES-COMB"], drivers=["scalars", "corpus", "vocab"]),
@@ -205,7 +205,7 @@ PROPS = {
     "C12": dict(suites=["CHECKSUM", "BUILDER-G", "QUAL", "PARSE-QUAL", "SPELL"], drivers=["checksum-ops", "corpus", "escapes"]),
     "C13": dict(suites=["TYPES-STR", "PARSE-SEP", "PARSE-PATH", "SPELL", "BUILDER-G", "BUILDER-SIM-G", "FORMAT-1"], drivers=["garbage", "corpus", "builder-ops"]),
     "C14": dict(suites=["SHAPES"], drivers=[]),
-    "C15": dict(suites=["TYPES-LOOKUP", "PARSE-TYPED", "FAULT", "PARSE-UPTYPE"], drivers=["type-strings"]),
+    "C15": dict(suites=["TYPES-LOOKUP", "PARSE-TYPED", "FAULT", "PARSE-UPTYPE"], drivers=["type-strings", "scalars"]),
     "C16": dict(suites=["PARSE-SEP", "PARSE-PATH", "PARSE-QUAL", "PARSE-TYPED", "SPELL", "FAULT", "FORMAT-1", "FORMAT-2", "BUILDER-G", "BUILDER-T", "TYPES-LOOKUP", "SYSTEM-G", "SYSTEM-T"], drivers=["garbage", "corpus"]),
     "C17": dict(suites=[], drivers=[], extra="c17",
                 assumptions=["feature sets are compile-time: the harness is compiled once per set; TLC supplies the common case stream and validates the zipped transcripts, it does not enumerate configurations"]),
